@@ -5,8 +5,8 @@ GEN   specs/dispatch/Dispatch.tla   MC_Dispatch_live*.cfg: LiveSpec (fairness, n
                                     Converges, Released, NotStuck, BrokenGoes
 RUN   harness/C14_dispatchcloud     real dispatcher + worker.Pool + stub cloud: randomised fault schedules,
                                     cancels/holds, operator hold/drain, one dispatcher restart per run
-      harness/C15_dispatchcloud     scripted Executor against the real worker.Pool: deterministic reproduction of
-                                    the known finding KF-C15-1 (re-confirmed, or seen fixed, on every run)
+      harness/C15_dispatchcloud     scripted Executors against the real worker.Pool: deterministic regression
+                                    scenarios for the two pool crashes found earlier (KF-C15-1, KF-C15-2, both fixed)
 JUDGE specs/dispatch/DispatchLiveTrace.tla (DispatchLiveContract: bounded liveness at a deadline >= 100 x the
                                     fault-free completion time measured in the same run)
 """
@@ -52,12 +52,13 @@ def run(ctx):
                  "stalems": 3000, "deadlinefactor": 100})
     by_id = {s["id"]: s for s in scns}
     events = _c14().run_e2e(ctx, scns)
-    # deterministic reproduction of KF-C15-1 (scripted Executor against the real worker.Pool, no timing)
+    # regression scenarios for KF-C15-1 / KF-C15-2 (both fixed): scripted Executors against the real worker.Pool, no timing
     pkg = "lib/dispatchcloud"
     rev, rout = ctx.go_run_driver(pkg, ctx.harness_overlay(pkg, "harness/C15_dispatchcloud"), "TestVerifC15Repro$", [], timeout=900)
     if "VERIF-NOTE" in rout:
-        ctx.drift.append("the scripted reproduction of KF-C15-1 could not be applied")
+        ctx.drift.append("a scripted regression scenario (KF-C15-1/2) could not be applied")
     by_id[9001] = {"id": 9001, "repro": "KF-C15-1: probe reaps a runner whose Start() has not returned yet"}
+    by_id[9002] = {"id": 9002, "repro": "KF-C15-2: host key callback after the instance left the pool"}
     events += rev
     traces = vlib.split_traces(events)
     finals = [t[-1] for t in traces if t[-1]["ev"] == "final"]
